@@ -173,3 +173,6 @@ def run_shard(shard):
 
 def replay(w):
     return replay_value(w, check_case, PROP, CONTRACTS)
+
+
+RULE += " Also 'large' shards (one field per case with 127..70000 bytes / 31..2100 elements / 31..257 entries) and an 'after failures' shard."
